@@ -250,6 +250,26 @@ def jobs_for(pid, rep):
                     ops.append({"op": "update_all", "u": dict(u, alt=1 - u["alt"]), "fail": 0})
                     ops.append({"op": "update_all", "u": u, "fail": 0})
             add(ops, i % 2, {"io": True})
+        # unsetting a key that exists only as the OTHER kind (a tag named like a field, a field named like a tag), through the
+        # database and through a handle: nothing to unset, so nothing may be written
+        for i in range(60 if thorough else 8):
+            g = gen.Gen(rng.randrange(1 << 30), handles=0.0)
+            ops, t = [], 0
+            tag_only = i % 2 == 0
+            for _ in range(g.r.choice([2, 3])):
+                p = g.point(t)
+                p["m"] = 1
+                p["tg"][0], p["fd"][0] = (g.r.randrange(6), -2) if tag_only else (-2, g.r.randrange(6))
+                ops.append({"op": "insert", "p": p, "m": concretise.NONE, "compact": 0})
+                t += 1
+            u = {"tk": 0, "tv": 0, "mk": 0, "mv": 0, "tgk": 0, "tgv": [], "fdk": 0, "fdv": [], "utg": [] if tag_only else [1], "ufd": [1] if tag_only else []}
+            NOOP = {"k": "meas", "key": 0, "key2": 0, "mf": 0, "op": "noop", "v": 0, "tf": 0}
+            ops.append({"op": "update", "q": NOOP, "m": 1, "u": u, "fail": 0, "via": "handle"})
+            ops.append({"op": "update_all", "m": 1, "u": u, "fail": 0, "via": "handle"})
+            ops.append({"op": "update", "q": NOOP, "m": concretise.NONE, "u": u, "fail": 0})
+            ops.append({"op": "update_all", "u": u, "fail": 0})
+            ops.append({"op": "all", "m": concretise.NONE, "sorted": 0})
+            add(ops, i % 2, {"io": True})
         # access modes
         for i in range(600 if thorough else 24):
             g = gen.Gen(rng.randrange(1 << 30), focus={"insert": 3, "remove": 3, "update": 3, "update_all": 1, "drop": 2, "remove_all": 2, "reindex": 1}, handles=0.2)
